@@ -9,7 +9,7 @@ STUBS = []
 OUTSIDE = ["smooth colliders", "placements not on a sweep", "rounding"]
 BOUNDS = {"quick": "5 tests x 6 (jolt, libccd) or 3 (mpr, nesterov) polytope pairs x 4 of 8 translation sweeps (B axis-aligned and in rational rotated orientations); ground truth by free witness point (3 reals) / free separating plane (4 reals) added to the sweep parameter",
           "thorough": "all corpus pairs x all sweeps"}
-WALL_BUDGET = {"quick": 420, "thorough": 900}
+WALL_BUDGET = {"quick": 300, "thorough": 600}
 EXPECTED_EXCEPTIONS = ()
 
 
